@@ -101,6 +101,10 @@ structure Topic where
   chanSess : List Sid := []                 -- the attached sessions which are attached as channel readers (perSessionData.isChanSub)
   isMe : Bool := false                      -- a user's `me` topic (kept under the user's name)
   perSubs : List (String × Bool × Bool) := []   -- `me` only: contact ↦ (last known online, enabled) (Topic.perSubs)
+  isFnd : Bool := false                     -- a user's `fnd` (search) topic, kept under `fnd:` + the user's name
+  fndPub : List (Sid × String) := []        -- `fnd` only: the search query of each attached session (Topic.public of a `fnd` topic)
+  fndPubMap : Nat := 0                      -- … and what Topic.public holds: 0 nothing, 1 a nil map (shown as `null`: what fndSetPublic leaves when the
+                                            -- last query is cleared), 2 a map (emptied by a leaving session it stays `{}`)
   deriving DecidableEq, Repr, Inhabited
 
 structure User where
@@ -108,6 +112,7 @@ structure User where
   auth : Mode
   anon : Mode
   suspended : Bool := false
+  tags : List String := []          -- the tags the account can be found by
   deriving DecidableEq, Repr
 
 structure Sess where
@@ -127,6 +132,7 @@ structure World where
   maxSubs : Nat := 32
   nextT : Nat := 1
   meSubs : List SubRow := []                -- the users' subscriptions to their own `me` topic (no topic row goes with them)
+  fndSubs : List SubRow := []               -- … and to their own `fnd` topic; both are made with the account (store.Users.Create)
   deriving DecidableEq, Repr
 
 /-- a presence message published through the hub to the sessions attached to a topic (presSubsOnline) -/
